@@ -9,6 +9,10 @@ NOTE = ("Trusted: Lean 4.33 kernel; axioms propext, Classical.choice, Quot.sound
         "harness/translate.py; the correspondence check (differential testing, generator quality bounds what it sees). ")
 
 CHECKS = {
+    "C14": dict(
+        text="Proved on the model of the setters/reset/copy: after ANY call history (valid/invalid arguments, keyword/positional forms, refused or half-refused calls) every parameter has lower < upper (step_inv, history_inv); accepted limits clamp the value exactly as stated (lower_clamps, upper_clamps); NaN limits are refused; a refused single update leaves the element unchanged; ANY valid pair of limits can be applied to ANY valid state (setBoth_succeeds), hence reset restores the class defaults from every valid state (reset_restores_defaults) and copies equal the original (copy_equals_original, container_copy_equals_original under the property's in-limits proviso); the defaults of the CURRENT registry are valid (decide over the generated table). Tie: random call histories on every registered class compared call by call with the real objects. PARTIAL: reset/copy exactness is proved per parameter; the list-level glue (dict iteration, key lookup) is covered by the correspondence and by the invariant theorems only; aliasing/independence is checked on the implementation only.",
+        ref="§4 C14", tech=TECH_H,
+        note=NOTE + "Floats are modelled as exact rationals of their shortest repr with +-inf and NaN; Python object aliasing cannot be expressed in a pure model."),
     "C05": dict(
         text="Proved for ALL inputs/histories on the DataSet model: ascending input + mask presents exactly the supplied (f,Z,mask) triples reversed and equals the descending construction with re-indexed mask (construct_asc_refines, construct_asc_eq_desc); representation invariant and frequency immutability over every operation history (step_inv, history_inv); low_pass/high_pass/subtract act on each point's own data (…_refines); unmasked+masked views partition the full view in every reachable state (views_partition_reachable); export->import is the identity, also without optional keys, and repeatable (from_dict_to_dict, from_dict_without_mask); caller's mask untouched. The model is tied to /repo by replaying thousands of random operation histories on the real DataSet and comparing every observation after every step; an independent list-of-triples reference is checked at the same time.",
         ref="§4 C05", tech=TECH_H,
